@@ -170,6 +170,10 @@ def check_atomic_value(run, cls, v, ctx_numbers):
         if kind == R.ENUM and isinstance(v, str) and any(v in getattr(k, "enumerations", {}) for k in cls.__mro__):
             # a name the class (or the enumeration it is derived from) declares
             run.violation("declared-enumeration-name-refused/" + type(err).__name__, dict(wit, error=repr(err)[:100]))
+        if kind == R.OBJID and isinstance(v, tuple) and len(v) == 2 and isinstance(v[0], str) and isinstance(v[1], int) \
+                and 0 <= v[1] <= 0x3FFFFF and v[0] in enum_table(cls.objectTypeClass):
+            # an object type name the identifier's type enumeration declares
+            run.violation("declared-object-type-name-refused/" + type(err).__name__, dict(wit, error=repr(err)[:100]))
         return
     if kind == R.OBJID and isinstance(v, int) and not isinstance(v, bool) and not (0 <= v <= 0xFFFFFFFF):
         # a word that does not fit the 10 + 22 bits cannot denote an object identifier: accepting it means wrapping it
